@@ -28,6 +28,10 @@ type HeaderFooterRegion struct {
 
 	// PageIndices lists which pages have this header/footer
 	PageIndices []int
+
+	// pattern is the repeated text with its numbers abstracted ("[#]",
+	// "Confidential - Page #"): what a fragment of a page-number region looks like
+	pattern string
 }
 
 // RegionType indicates whether a region is a header or footer
@@ -457,6 +461,7 @@ func (d *HeaderFooterDetector) findRepeatingPatterns(candidates []candidate, pag
 			IsPageNumber: isPageNum,
 			Confidence:   confidence,
 			PageIndices:  pageIndices,
+			pattern:      normalizedText,
 		})
 	}
 
@@ -726,7 +731,7 @@ func (r *HeaderFooterResult) isInHeaderFooter(pageIndex int, frag text.TextFragm
 			if charLevel {
 				return true
 			}
-			if textsMatch(frag.Text, header.Text, header.IsPageNumber) {
+			if textsMatch(frag.Text, header.Text, header.IsPageNumber) || header.matchesPattern(frag.Text) {
 				return true
 			}
 		}
@@ -749,7 +754,7 @@ func (r *HeaderFooterResult) isInHeaderFooter(pageIndex int, frag text.TextFragm
 			if charLevel {
 				return true
 			}
-			if textsMatch(frag.Text, footer.Text, footer.IsPageNumber) {
+			if textsMatch(frag.Text, footer.Text, footer.IsPageNumber) || footer.matchesPattern(frag.Text) {
 				return true
 			}
 		}
@@ -766,6 +771,17 @@ func containsPage(pages []int, pageIndex int) bool {
 		}
 	}
 	return false
+}
+
+// matchesPattern reports whether a fragment's text is an instance of a
+// page-number region's own pattern. Running numbers are detected in any
+// decoration ("[3]", "-3-", "Confidential - Page 3"), not only in the fixed
+// spellings textsMatch knows.
+func (r HeaderFooterRegion) matchesPattern(fragText string) bool {
+	if !r.IsPageNumber || r.pattern == "" {
+		return false
+	}
+	return normalizeForComparison(strings.TrimSpace(fragText)) == r.pattern
 }
 
 // textsMatch checks if two texts match (considering page numbers)
